@@ -334,6 +334,10 @@ func rlScripted(kind string) []rlCfg {
 		{Kind: kind, Opts: []rlCtxOpt{d, d}, TTL: 8, SQ: 1, RQ: 2, Steps: []string{"conn", "conn", "req p1 2", "recv c1", "drop p1", "send c1", "req p2 2", "recv c1", "send c1"}},
 		// slow requester: per-pipe queue fills, send deadline, best effort
 		{Kind: kind, Opts: []rlCtxOpt{{SendExp: 2 * sec}, {BestEffort: true}}, TTL: 8, SQ: 1, RQ: 8, Steps: []string{"conngated", "req p1 1", "req p1 1", "req p1 1", "req p1 1", "recv c0", "send c0", "recv c0", "send c0", "recv c0", "send c0", "adv 1.999999s", "adv 1us", "recv c1", "send c1", "release p1", "release p1"}},
+		// the slow requester goes away while a reply is waiting for room in its queue: the blocked Send ends at once
+		// (the reply is discarded), with and without a send deadline; the socket keeps serving others
+		{Kind: kind, Opts: []rlCtxOpt{d, d}, TTL: 8, SQ: 1, RQ: 8, Steps: []string{"conngated", "req p1 1", "req p1 1", "req p1 1", "recv c0", "send c0", "recv c0", "send c0", "recv c0", "send c0", "drop p1", "conn", "req p2 2", "recv c1", "send c1", "recv c0"}},
+		{Kind: kind, Opts: []rlCtxOpt{{SendExp: 5 * sec}, d}, TTL: 8, SQ: 0, RQ: 8, Steps: []string{"conngated", "req p1 1", "req p1 1", "recv c0", "send c0", "recv c0", "send c0", "adv 1s", "drop p1", "adv 1s", "conn", "req p2 1", "recv c0", "send c0", "adv 10s"}},
 		// receive deadline; context close with pending receive; socket close
 		{Kind: kind, Opts: []rlCtxOpt{{RecvExp: 3 * sec}, d}, TTL: 8, SQ: 2, RQ: 2, Steps: []string{"conn", "recv c0", "recv c1", "adv 2.999999s", "adv 1us", "cclose c1", "recv c1", "send c0", "req p1 1", "recv c0"}},
 	}
